@@ -120,6 +120,27 @@ Fixpoint runs_within (bound : nat) (s : list Z) (k : nat) : bool :=
   end.
 Definition short_runs (s : list Z) : Prop := runs_within 18 s 0 = true.
 
+(* The exact domain on which a 64-bit int holds the value of every digit run: every maximal digit
+   run of s spells a number below 2^63 (any number of leading zeros allowed).  [short_runs]
+   (at most 18 digits) implies it. *)
+Definition tok_fits (t : tok) : bool := match t with TNum v => v <? 2 ^ 63 | TByte _ => true end.
+Definition runs_fit (s : list Z) : Prop := forallb tok_fits (key s) = true.
+
+(* The key with every digit run read the way a 64-bit signed accumulator reads it: after each
+   digit the value is reduced into [-2^63, 2^63).  Equal to [key] on [runs_fit] strings. *)
+Definition int64 (z : Z) : Z := (z + 2 ^ 63) mod 2 ^ 64 - 2 ^ 63.
+
+Fixpoint key_aux_w (f : Z -> Z) (s : list Z) (acc : option Z) : list tok :=
+  match s with
+  | [] => flush acc
+  | c :: t =>
+    if digit c then
+      key_aux_w f t (Some (f (match acc with Some v => v * 10 + (c - 48) | None => c - 48 end)))
+    else flush acc ++ TByte c :: key_aux_w f t None
+  end.
+
+Definition wkey (s : list Z) : list tok := key_aux_w int64 s None.
+
 (* a string with the leading zeros of every digit run removed (a run of zeros becomes "0"):
    two strings are equal up to leading zeros of digit runs when these normal forms coincide.
    [st]: 0 = not in a digit run, 1 = in a run, only zeros so far (none emitted), 2 = in a run
